@@ -4,9 +4,10 @@
 (* for option values, INI values and struct tags (double-quoted,           *)
 (* interpreted string literals).                                           *)
 (*   Unquote(t): [ok, unspec, v] as in Conv.  The escapes \\ \" \n \t \r   *)
-(*   \a \b \f \v, \xHH (HH < 80 hex), \uHHHH (not a surrogate) are        *)
-(*   specified; octal, \U and \x >= 80 are Unspec; everything else that     *)
-(*   Go rejects is Rej.                                                     *)
+(*   \a \b \f \v, \xHH, \uHHHH (not a surrogate) are specified (a lone    *)
+(*   \xHH with HH >= 80 is one raw byte; two in a row are Unspec because   *)
+(*   they may combine into one character); octal and \U are Unspec;        *)
+(*   everything else that Go rejects is Rej.                                *)
 (***************************************************************************)
 EXTENDS Conv
 
@@ -17,15 +18,15 @@ SimpleEsc(c) == CASE c = 110 -> 10 [] c = 116 -> 9 [] c = 114 -> 13 [] c = BACKS
 
 \* scan the inside of the literal (without the surrounding quotes): a character automaton, folded over the text
 \* (a recursive scan overflows the stack on the multi-kilobyte values of the INI checks)
-UnqStart == [mode |-> "plain", out |-> E, res |-> "", need |-> 0, got |-> 0, acc |-> 0, kind |-> ""]
+UnqStart == [mode |-> "plain", out |-> E, res |-> "", need |-> 0, got |-> 0, acc |-> 0, kind |-> "", hiEsc |-> FALSE]
 UnqStep(a, c) ==
   IF a.res # "" THEN a
   ELSE IF a.mode = "plain" THEN
        IF c = QUOTE \/ c = NL THEN [a EXCEPT !.res = "rej"]                     \* bare quote inside, or newline
        ELSE IF c = BACKSLASH THEN [a EXCEPT !.mode = "esc"]
-       ELSE [a EXCEPT !.out = Append(@, Sanitize(c))]
+       ELSE [a EXCEPT !.out = Append(@, Sanitize(c)), !.hiEsc = FALSE]
   ELSE IF a.mode = "esc" THEN
-       IF SimpleEsc(c) >= 0 THEN [a EXCEPT !.out = Append(@, SimpleEsc(c)), !.mode = "plain"]
+       IF SimpleEsc(c) >= 0 THEN [a EXCEPT !.out = Append(@, SimpleEsc(c)), !.mode = "plain", !.hiEsc = FALSE]
        ELSE IF c = 120 THEN [a EXCEPT !.mode = "hex", !.need = 2, !.got = 0, !.acc = 0, !.kind = "x"]         \* \xHH
        ELSE IF c = 117 THEN [a EXCEPT !.mode = "hex", !.need = 4, !.got = 0, !.acc = 0, !.kind = "u"]         \* \uHHHH
        ELSE IF c = 85 \/ (c >= 48 /\ c <= 55) THEN [a EXCEPT !.res = "unspec"]                               \* \U........ and octal
@@ -34,9 +35,12 @@ UnqStep(a, c) ==
        IF HexVal(c) > 15 THEN [a EXCEPT !.res = "rej"]
        ELSE LET v == a.acc * 16 + HexVal(c) IN
             IF a.got + 1 < a.need THEN [a EXCEPT !.acc = v, !.got = @ + 1]
-            ELSE IF a.kind = "x" THEN (IF v >= 128 THEN [a EXCEPT !.res = "unspec"] ELSE [a EXCEPT !.out = Append(@, v), !.mode = "plain"])
+            ELSE IF a.kind = "x" THEN
+                 \* \xHH with HH >= 80 is one raw byte; two of them in a row could combine into a character: no verdict then
+                 (IF v >= 128 THEN (IF a.hiEsc THEN [a EXCEPT !.res = "unspec"] ELSE [a EXCEPT !.out = Append(@, BADBYTE + v), !.mode = "plain", !.hiEsc = TRUE])
+                  ELSE [a EXCEPT !.out = Append(@, v), !.mode = "plain", !.hiEsc = FALSE])
             ELSE IF v >= 55296 /\ v <= 57343 THEN [a EXCEPT !.res = "rej"]
-            ELSE [a EXCEPT !.out = Append(@, v), !.mode = "plain"]
+            ELSE [a EXCEPT !.out = Append(@, v), !.mode = "plain", !.hiEsc = FALSE]
 UnqBody(in, ignored) ==
   LET r == FoldLeft(UnqStep, UnqStart, in) IN
   IF r.res = "unspec" THEN Unspec
@@ -60,7 +64,10 @@ NonPrintSamples == {133, 160, 173, 8232, 8233, 65279, 12288}   \* NEL, NBSP, SHY
 PrintSamples == {233, 228, 252, 19990, 30028, 955, 128512, 8364, 65533}   \* e-acute, a-uml, u-uml, CJK, lambda, emoji, euro, U+FFFD
 IsPrintKnown(c) == c < 128 \/ c \in NonPrintSamples \/ c \in PrintSamples \/ c >= BADBYTE
 \* go-flags' isPrint ranges over the string: a byte that is not valid UTF-8 arrives as U+FFFD, which is printable
-IsPrintC(c) == IF c < 128 THEN IsPrintAscii(c) ELSE IF c >= BADBYTE THEN TRUE ELSE c \in PrintSamples
+\* Beyond ASCII: the C1 controls, NBSP, the soft hyphen and the listed separators / format characters are not
+\* printable; every other character the generators use is (letters, CJK, symbols, emoji, U+FFFD).
+IsPrintC(c) == IF c < 128 THEN IsPrintAscii(c) ELSE IF c >= BADBYTE THEN TRUE
+               ELSE IF c <= 160 \/ c \in NonPrintSamples \/ (c >= 8192 /\ c <= 8207) \/ (c >= 8232 /\ c <= 8239) \/ c = 8287 THEN FALSE ELSE TRUE
 IsPrintS(s) == \A i \in 1..Len(s) : IsPrintC(s[i])
 IsPrintKnownS(s) == \A i \in 1..Len(s) : IsPrintKnown(s[i])
 
